@@ -28,28 +28,38 @@ const (
 //	verifh run <ID> [--tier quick|thorough]
 //	verifh worker <ID> --tier T --shard k/n --out file [--trace file] [--only seq]
 //	verifh replay <file>
-func Main() {
-	if len(os.Args) < 2 {
+// SelfArgsPrefix is prepended to the arguments when the binary re-executes
+// itself (workers, helper processes). Test binaries (C18 runs inside
+// testing/synctest) set it to route through their driver test.
+var SelfArgsPrefix []string
+
+func Main() { os.Exit(MainArgs(os.Args[1:])) }
+
+// MainArgs dispatches run|worker|replay|child|list.
+func MainArgs(args []string) int {
+	if len(args) < 1 {
 		fmt.Fprintln(os.Stderr, "usage: run|worker|replay|list")
-		os.Exit(2)
+		return 2
 	}
+	os.Args = append([]string{os.Args[0]}, args...)
 	switch os.Args[1] {
 	case "list":
 		for _, id := range IDs() {
 			fmt.Println(id)
 		}
 	case "run":
-		os.Exit(runParent(os.Args[2:]))
+		return runParent(os.Args[2:])
 	case "worker":
-		os.Exit(runWorker(os.Args[2:]))
+		return runWorker(os.Args[2:])
 	case "replay":
-		os.Exit(runReplay(os.Args[2:]))
+		return runReplay(os.Args[2:])
 	case "child":
-		os.Exit(ChildMain(os.Args[2]))
+		return ChildMain(os.Args[2])
 	default:
 		fmt.Fprintln(os.Stderr, "unknown command", os.Args[1])
-		os.Exit(2)
+		return 2
 	}
+	return 0
 }
 
 func seedFromEnv() int64 {
@@ -490,7 +500,7 @@ func spawnWorker(self, id, tier string, k, n int, out, trace string, only int64,
 		args = append(args, "--only", strconv.FormatInt(only, 10))
 	}
 	os.Remove(out)
-	cmd := exec.Command(self, args...)
+	cmd := exec.Command(self, append(append([]string{}, SelfArgsPrefix...), args...)...)
 	var se bytes.Buffer
 	cmd.Stderr = &limitedWriter{w: &se, n: 1 << 20}
 	cmd.Stdout = os.Stderr
